@@ -362,6 +362,14 @@ func (c GenCfg) ChainPair(r *Rng, listSteps bool) (*Val, *Val) {
 		if !c.AllowNull && v.K == KNull {
 			v = VNum(1)
 		}
+		if r.Chance(1, 3) {
+			// container-valued member: it may change its type in b
+			if r.Chance(1, 2) {
+				v = VArr(VNum(1), VNum(2))
+			} else {
+				v = VObj("q", VNum(1))
+			}
+		}
 		leafA.O[k] = v
 		switch r.Intn(4) {
 		case 0: // removed in b
